@@ -167,6 +167,9 @@ func fsRequests(quick bool) []harness.Req {
 		}
 		out = append(out, harness.Req{Method: "MKCOL", Path: p})
 		out = append(out, harness.Req{Method: "MKCOL", Path: p, Header: map[string]string{"Content-Type": "text/xml"}, Body: "<x/>"})
+		// a body announced by its length alone, and one of unannounced length (chunked): a request entity of a
+		// type the server cannot know (RFC 4918 9.3.1: 415)
+		out = append(out, harness.Req{Method: "MKCOL", Path: p, Body: "<x/>"}, harness.Req{Method: "MKCOL", Path: p, Body: "<x/>", Chunked: true})
 		for _, b := range []string{"x", "yy", ""} {
 			out = append(out, harness.Req{Method: "PUT", Path: p, Body: b})
 		}
